@@ -139,6 +139,7 @@ type retSite struct {
 	reach string
 	st    *State
 	vals  []EV
+	pos   token.Pos
 }
 
 type Frame struct {
